@@ -312,6 +312,9 @@ def scenarios(ctx):
         if kind != "actisense":
             for variant in range(12):
                 out.append(dict(kind=kind, shape="realmulti", connect=["ok"], action=rnd.choice(["none", "none", "eof"]), point=["at", rnd.choice([0.4, 2.0, 9.0])], cb="ok", status="ok", drain=None, variant=variant))
+        for action in ("eof", "readerr", "writefail"):
+            for kindp, v in [("ticks", 6), ("at", 0.4), ("at", 2.0)]:
+                out.append(dict(kind=kind, shape=rnd.choice(["plain", "send"]), connect=["ok"], action=action, point=[kindp, v], cb="ok", status="close-on-reconnected", drain=None))
         # connect failures that are OSErrors but not ConnectionErrors
         for cs in (["unreachable", "unreachable", "ok"], ["ok", "unreachable", "ok"]):
             for action in ("none", "eof", "close"):
